@@ -46,6 +46,8 @@ pub fn ci<C: Col>(c: C) -> i32 {
 /// (stored: the first area + width + 16 of them).
 pub struct Drain<C: Col> {
     pub calls: Vec<Value>,
+    /// at most this many colours of a stream are stored (all are counted)
+    pub store_cap: usize,
     _c: PhantomData<C>,
 }
 pub const HARD_CAP: usize = 1 << 20;
@@ -54,7 +56,7 @@ pub fn call_json(m: &str, area: &Rectangle, n: usize, over: bool, cs: Vec<i32>, 
 }
 impl<C: Col> Drain<C> {
     pub fn new() -> Self {
-        Drain { calls: vec![], _c: PhantomData }
+        Drain { calls: vec![], store_cap: 1 << 17, _c: PhantomData }
     }
 }
 impl<C: Col> Dimensions for Drain<C> {
@@ -71,7 +73,7 @@ impl<C: Col> DrawTarget for Drain<C> {
         Ok(())
     }
     fn fill_contiguous<I: IntoIterator<Item = C>>(&mut self, area: &Rectangle, colors: I) -> Result<(), Self::Error> {
-        let keep = area.size.width as usize * area.size.height as usize + area.size.width as usize + 16;
+        let keep = (area.size.width as usize * area.size.height as usize + area.size.width as usize + 16).min(self.store_cap);
         let mut cs = vec![];
         let mut n = 0usize;
         let mut over = false;
